@@ -113,7 +113,7 @@ def sevexpr_s(draw):
         name = draw(st.sampled_from([name, name, name.upper(), name.capitalize()]))
         items.append(op + name)
     if k == 1:
-        items.insert(draw(st.integers(0, len(items))), draw(st.sampled_from(["bogus", ">=loud", "warn", "=", ">", "inf o"])))
+        items.insert(draw(st.integers(0, len(items))), draw(st.sampled_from(["bogus", ">=loud", "warn", "=", ">", "inf o", "=>error", "==info", ">>info", "<>warning", ">==error", "=<info", "<<fatal"])))
     return ",".join(items)
 
 
